@@ -17,7 +17,7 @@ using namespace Oomd;
 #define H_LAW 1
 #endif
 static const char kAlpha[] = "/*?.ab";
-struct Buf { char c[12]; int n; };
+struct Buf { char c[28]; int n; };   // (larger than 16 bytes on purpose: returned through memory, not coerced into integer registers)
 static Buf sym(int key, int len) { Buf b; b.n = len; for (int i = 0; i < len; i++) b.c[i] = kAlpha[vf_nd(key + i, 0, 5)]; b.c[len] = 0; return b; }
 static std::string str(const Buf& b) { return std::string(b.c, (size_t)b.n); }
 // reference canonical relative path: components separated by single '/', no empty components
